@@ -39,7 +39,7 @@ STUB = ["event loop (SimLoop)", "transport (SimTransport)"]
 ASSUMPTIONS = ["reference recogniser is the oracle", "trailing whitespace per str.rstrip()"]
 REQUIRED_PROBES = ["fields_2", "fields_3", "fields_4", "fields_5", "fields_0_1", "fields_7plus", "must_accept",
                    "must_reject", "either", "crossfield_reject", "idrequest_exception", "prefix_of_valid"]
-ASPECTS = ("decode", "yield")
+ASPECTS = ("decode", "yield", "outcome")
 
 
 def budget(tier):
@@ -91,6 +91,10 @@ def gen(seed: int, i: int, tier: str) -> dict:
                 parts, tag2 = G.field_mutation(rng, text.rstrip("\n").split(";"))
                 text, tag = ";".join(parts) + "\n", tag + "+" + tag2
             lines.append([text, tag])
+    # the link duplicates lines: the same text arriving again must decode to the same values again
+    for _ in range(rng.randint(0, 3)):
+        if lines:
+            lines.insert(rng.randint(0, len(lines)), list(rng.choice(lines)))
     return {"cfg": {"pin": rng.choice(G.PROTOS)}, "lines": lines}
 
 
@@ -101,6 +105,10 @@ def run(scn):
     scn2 = {"cfg": scn["cfg"], "ops": [["line", ln] for ln, _ in scn["lines"]]}
 
     def keep(aspect, site):
+        # the decoded values are also visible through the error the handler raises for them (node_id / child_id of
+        # Missing*Error, which error class): dispatching on other values than the line spells is a decoding fault
+        if aspect == "outcome":
+            return "-wrong" in site or "Missing" in site or "Unsupported" in site
         return True
 
     res = execute(scn2, PROP, ASPECTS, keep=keep)
